@@ -13,6 +13,7 @@ ENGINES = {
     "pure": {"shards_thorough": 8},
     "seq": {"shards_thorough": 14},
     "seq0": {"shards_thorough": 14},
+    "seqp": {"shards_thorough": 14},
 }
 
 PROPS = {
@@ -45,7 +46,7 @@ PROPS = {
         "assumptions": ["ids unique among resting orders; price*quantity sums below 2^63 (the property's quantifier)"],
     },
     "C02": {
-        "engines": ["seq", "seq0", "pure"],
+        "engines": ["seq", "seq0", "seqp", "pure"],
         "footprint": {"match": "*", "atx": "*"},
         "nontrivial": r"^match txs=\[[^\]]*,[^\]]*\]|^atx \d+:\d+ \d",
         "rule": "E-seq/E-seq0 histories as for C01, every match result compared field by field and judged by C02.ok on the real "
@@ -54,7 +55,7 @@ PROPS = {
         "assumptions": ["as C01; transaction ids are mapped back to counter values through v5(namespace, k) computed by the harness"],
     },
     "C07": {
-        "engines": ["seq", "seq0"],
+        "engines": ["seq", "seq0", "seqp"],
         "footprint": {"upd": "*", "state": ["vis", "hid", "cnt", "list"], "add": "*", "match": "*", "read": "*"},
         "nontrivial": r"^upd ok=[A-Z]",
         "rule": "E-seq/E-seq0 histories with all five update kinds x present/absent ids x equal/different price and read-only calls "
